@@ -536,6 +536,11 @@ def perturb_spec(rng, spec, allow_type_swap=True, allow_dupcenter=False, allow_q
                    "IrregularlyBin": ["edge", "addedge", "dropedge", "edgetiny"], "Stack": ["edge", "addedge", "dropedge", "edgetiny", "permedges"],
                    "Bag": ["range"], "Label": ["renamekey", "addmember", "kindswap"], "UntypedLabel": ["renamekey", "addmember", "kindswap"],
                    "Index": ["addmember", "kindswap"], "Branch": ["addmember", "kindswap"]}.get(k0, [])
+            v0 = _get(s2, path).get("value")
+            if allow_type_swap and isinstance(v0, dict) and v0.get("k") in ("Count", "Sum", "Average", "Deviate", "Minimize", "Maximize"):
+                # the content type of a binning container (a histogram of Counts against a profile of Sums, ...): its own kind of
+                # change, so that it is not crowded out by the type swaps that exist at every node
+                per = per + ["valuetype"]
             for c0 in per:
                 if (c0 in ("dupcenter", "permedges") or c0.endswith("tiny")) and not allow_dupcenter:
                     continue   # a repeated centre / a parameter moved by one float: only for containers that are never filled (C10)
@@ -648,6 +653,19 @@ def perturb_spec(rng, spec, allow_type_swap=True, allow_dupcenter=False, allow_q
         elif c == "kindswap":
             # the same members in the sibling collection type (Label <-> UntypedLabel, Index <-> Branch)
             node["k"] = {"Label": "UntypedLabel", "UntypedLabel": "Label", "Index": "Branch", "Branch": "Index"}[k]
+        elif c == "valuetype":
+            repl = rng.choice([{"k": "Count"}, {"k": "Sum", "q": [0, None]}, {"k": "Minimize", "q": [1, None]},
+                               {"k": "Average", "q": [0, None]}, {"k": "Maximize", "q": [1, None]},
+                               {"k": "Deviate", "q": [2, None]}])
+            if repl["k"] == node["value"]["k"]:
+                continue
+            desc = "%s at /%s: content type %s -> %s" % (k, "/".join(map(str, path)), node["value"]["k"], repl["k"])
+            node["value"] = repl
+            try:
+                build(s2)
+            except Exception:  # noqa: BLE001
+                continue
+            return s2, desc, _depth(path) + 1
         elif c == "type":
             # replace the node by an aggregator of another primitive type
             repl = rng.choice([{"k": "Count"}, {"k": "Sum", "q": [0, None]}, {"k": "Minimize", "q": [1, None]},
